@@ -11,6 +11,8 @@ def allOps : List (String × (Json → D Json)) :=
   ++ Polar.statsOps
   ++ Polar.simOps
   ++ Polar.trigOps
+  ++ Polar.invariantOps
+  ++ Polar.synthOps
 
 def dispatch (j : Json) : Json :=
   match jField j "op" >>= jStr with
